@@ -28,7 +28,7 @@ def check(ctx):
 
 
 MANIFEST = {
-    "technique": "static analysis: guard-liveness dataflow on MIR + call-graph 'touches' sets (lock discipline), method whitelist, guard-escape rule on public signatures, order-sensitive consumers of hash iteration, panic-site discharge",
+    "technique": "static analysis: guard-liveness dataflow on MIR + call-graph 'touches' sets (lock discipline), method whitelist, guard-escape rule on public signatures, order-sensitive consumers of hash iteration, no thread-local state, panic-site discharge",
     "level": "Decides 'never deadlocks, never panics, never returns a partially built answer' for all schedules: self-deadlock and lock-order "
     "cycles are the only ways a DashMap user deadlocks, and both are excluded structurally on every path of every function that holds a guard; "
     "cached vectors are inserted complete and never mutated or removed (K3/K4), which also discharges the two .expect(\"Cached value\") sites. "
